@@ -75,12 +75,25 @@ func vaSprint(v *VM, va []Value) string {
 	return strings.Join(res, " ")
 }
 
+// vaSprintPlain renders the operands the way fmt.Sprint and fmt.Print do: a space only between two operands of which
+// neither is a string
+func vaSprintPlain(v *VM, va []Value) string {
+	var sb strings.Builder
+	for i, a := range va {
+		if i > 0 && a.t != TypeString && va[i-1].t != TypeString {
+			sb.WriteByte(' ')
+		}
+		sb.WriteString(sprint(v, a))
+	}
+	return sb.String()
+}
+
 func loadFmt(g *lookup) {
 	g.Set("fmt.Sprint", NewFunc(1, 1, func(v *VM, args []Value, vargs ...Value) []Value {
-		return []Value{String(vaSprint(v, vargs))}
+		return []Value{String(vaSprintPlain(v, vargs))}
 	}))
 	g.Set("fmt.Print", NewFunc(1, 0, func(v *VM, args []Value, vargs ...Value) []Value {
-		fmt.Fprint(v.stdout, vaSprint(v, vargs))
+		fmt.Fprint(v.stdout, vaSprintPlain(v, vargs))
 		return nil
 	}))
 	g.Set("fmt.Println", NewFunc(1, 0, func(v *VM, args []Value, vargs ...Value) []Value {
